@@ -128,3 +128,104 @@ pub fn run(a: &Args) {
         println!("{}", l);
     }
 }
+
+/// pg_race mode=<exit|leave_join|join_leave> k=<groups> iters=<n>
+///
+/// Two threads work on the same groups at the same time; once both are done the scope index must list exactly the groups that have members.
+/// (The C11 lock invariant - index and membership agree whenever a group's entry is released - is what makes this hold for every interleaving;
+/// this scenario looks for an interleaving in which its violation becomes visible through the public API.)
+pub fn race(a: &Args) {
+    let mode = a.str("mode").to_string();
+    let k = a.usize("k").max(1);
+    let iters = a.usize("iters").max(1);
+    let sc = format!("c11-race-{}", std::process::id());
+    let rt = tokio::runtime::Builder::new_multi_thread().worker_threads(2).enable_time().build().unwrap();
+    let groups: Vec<String> = (0..k).map(|i| format!("g{}", i)).collect();
+    let mut bad: Vec<String> = Vec::new();
+    let agree = |sc: &String, groups: &Vec<String>, tag: &str, bad: &mut Vec<String>| {
+        let idx: std::collections::HashSet<String> = pg::which_scoped_groups(sc).into_iter().collect();
+        for g in groups {
+            let n = pg::get_scoped_members(sc, g).len();
+            if (n > 0) != idx.contains(g) && bad.len() < 4 {
+                bad.push(format!("{}: group {} has {} members but listed={}", tag, g, n, idx.contains(g)));
+            }
+        }
+    };
+    let (bb, _bh) = rt.block_on(Actor::spawn(None, Plain, ())).unwrap();
+    for it in 0..iters {
+        if !bad.is_empty() {
+            break;
+        }
+        let (aa, ah) = rt.block_on(Actor::spawn(None, Plain, ())).unwrap();
+        match mode.as_str() {
+            "exit" => {
+                for g in &groups {
+                    pg::join_scoped(sc.clone(), g.clone(), vec![aa.get_cell()]);
+                }
+                let a_id = aa.get_id();
+                let (sc2, groups2, b2) = (sc.clone(), groups.clone(), bb.get_cell());
+                let th = std::thread::spawn(move || {
+                    // keep joining b everywhere until a is gone from every group
+                    loop {
+                        let mut a_left = false;
+                        for g in &groups2 {
+                            pg::join_scoped(sc2.clone(), g.clone(), vec![b2.clone()]);
+                            if pg::get_scoped_members(&sc2, g).iter().any(|c| c.get_id() == a_id) {
+                                a_left = true;
+                            }
+                        }
+                        if !a_left {
+                            break;
+                        }
+                    }
+                });
+                aa.stop(None);
+                rt.block_on(async {
+                    let _ = ah.await;
+                });
+                th.join().unwrap();
+                agree(&sc, &groups, &format!("iteration {} (a exits while b joins)", it), &mut bad);
+                for g in &groups {
+                    pg::leave_scoped(sc.clone(), g.clone(), vec![bb.get_cell()]);
+                }
+            }
+            "leave_join" | "join_leave" => {
+                let lj = mode == "leave_join";
+                for g in &groups {
+                    if lj {
+                        pg::join_scoped(sc.clone(), g.clone(), vec![aa.get_cell()]);
+                    }
+                    let bar = Arc::new(std::sync::Barrier::new(2));
+                    let (sc2, g2, bar2) = (sc.clone(), g.clone(), bar.clone());
+                    let other = if lj { bb.get_cell() } else { aa.get_cell() };
+                    let th = std::thread::spawn(move || {
+                        bar2.wait();
+                        if lj {
+                            pg::join_scoped(sc2, g2, vec![other]);
+                        } else {
+                            pg::leave_scoped(sc2, g2, vec![other]);
+                        }
+                    });
+                    bar.wait();
+                    if lj {
+                        pg::leave_scoped(sc.clone(), g.clone(), vec![aa.get_cell()]);
+                    } else {
+                        pg::join_scoped(sc.clone(), g.clone(), vec![aa.get_cell()]);
+                    }
+                    th.join().unwrap();
+                }
+                agree(&sc, &groups, &format!("iteration {} ({})", it, mode), &mut bad);
+                for g in &groups {
+                    pg::leave_scoped(sc.clone(), g.clone(), vec![aa.get_cell(), bb.get_cell()]);
+                }
+                aa.stop(None);
+                rt.block_on(async {
+                    let _ = ah.await;
+                });
+            }
+            _ => {}
+        }
+    }
+    println!("disagreements={}", bad.len());
+    println!("detail={}", bad.join(" | "));
+}
